@@ -4,7 +4,7 @@
 From Coq Require Import String Lia.
 From FA Require Import model.Base model.Varint model.Value model.Schema model.Float model.Utf8 model.Codec
                        model.Validate model.Read model.Resolve model.ResolveOld
-                       proofs.VarintProofs proofs.CodecProofs proofs.ResolveProofs proofs.ResolveOldProofs.
+                       proofs.VarintProofs proofs.CodecProofs proofs.ResolveProofs proofs.ResolveAnnotProofs proofs.ResolveOldProofs.
 
 Open Scope Z_scope.
 
@@ -159,6 +159,37 @@ Theorem C08_rval_is_resolve_partial : forall o, forall n we w a, typedn n we w a
   rval f we re o w (Some r) a = resolve o we re w r a.
 Proof. exact rval_resolve. Qed.
 Print Assumptions C08_rval_is_resolve_partial.
+
+(** ** logicalType annotations on array / map / named-type nodes (unknown logical types; the known ones are C16's).
+    The code and the specification do not look at them: [unannot] removes them (annotated primitives stay - they are
+    the dict form), and both [rval] and [resolve] give the same result with and without, for ALL schemas, options, fuels
+    and values.  Hence both zone theorems hold for annotated schemas, the zone being checked on the unannotated ones. *)
+Theorem C08_code_ignores_annotations : forall o f we re w R a,
+  rval f (unannot_env we) (unannot_env re) o (unannot w) (option_map unannot R) a = rval f we re o w R a.
+Proof. exact rval_U. Qed.
+Print Assumptions C08_code_ignores_annotations.
+
+Theorem C08_spec_ignores_annotations : forall o we re a w r,
+  resolve o (unannot_env we) (unannot_env re) (unannot w) (unannot r) a = resolve o we re w r a.
+Proof. exact resolve_U. Qed.
+Print Assumptions C08_spec_ignores_annotations.
+
+Theorem C08_factor_zone_annot_partial : forall o, forall n we w l, typedl n we w l ->
+  forall re r f x, (n <= f)%nat -> typedn n we w (erase l) ->
+  inline (unannot w) = true -> inline (unannot r) = true ->
+  agree (unannot_env we) (unannot_env re) (unannot w) (unannot r) = true ->
+  rdec f we re o w (Some r) (wire_l l ++ x)%list = lift x (resolve o we re w r (erase l)).
+Proof. exact rdec_resolve_zone_annot_layout. Qed.
+Print Assumptions C08_factor_zone_annot_partial.
+
+Theorem C08_factor_zone_refs_annot_partial : forall o, forall n we w l, typedl n we w l ->
+  forall re r f x, (n <= f)%nat -> typedn n we w (erase l) ->
+  env_scoped (unannot_env we) = true -> env_scoped (unannot_env re) = true ->
+  scoped (unannot_env we) (unannot w) = true -> scoped (unannot_env re) (unannot r) = true ->
+  agree_all (unannot_env we) (unannot_env re) (unannot w) (unannot r) = true ->
+  rdec f we re o w (Some r) (wire_l l ++ x)%list = lift x (resolve o we re w r (erase l)).
+Proof. exact rdec_resolve_zoneS_annot_layout. Qed.
+Print Assumptions C08_factor_zone_refs_annot_partial.
 
 (** ** C08_identity: with a reader schema equal to the writer schema, the specification returns what reading
     without a reader schema returns ([py_of]).  [wf_ident]: union branches do not capture each other, record
@@ -399,3 +430,21 @@ Qed.
 Example C08_linked_list_three :
   rdec 12 ll_we ll_re ropts0 ll_w (Some ll_r) (wire ll_a) = ROk (ll_node 1 (ll_node 2 (ll_node 3 PNone)), []).
 Proof. exact ll_three. Qed.
+
+(** annotations on a record, on its array field, on the array's item type (a fixed, referred to by name afterwards) and on
+    a reader-only map field: outside the zones as such, inside once the annotations are removed; so every value is read
+    as the specification says; one value by computation *)
+Example C08_annotated_in_zone :
+  (scoped an_we an_w = false /\ inline an_w = false) /\
+  env_scoped (unannot_env an_we) && env_scoped (unannot_env an_re) && scoped (unannot_env an_we) (unannot an_w)
+  && scoped (unannot_env an_re) (unannot an_r) && agree_all (unannot_env an_we) (unannot_env an_re) (unannot an_w) (unannot an_r) = true.
+Proof. split; [exact an_not_in_plain_zone|exact an_in_zone]. Qed.
+
+Example C08_annotated_any_value : forall o n a, typedn n an_we an_w a -> forall f x, (n <= f)%nat ->
+  rdec f an_we an_re o an_w (Some an_r) (wire a ++ x)%list = lift x (resolve o an_we an_re an_w an_r a).
+Proof. exact an_any_value. Qed.
+
+Example C08_annotated_example :
+  rdec 8 an_we an_re ropts0 an_w (Some an_r) (wire an_a) = ROk (an_out, []) /\
+  resolve ropts0 an_we an_re an_w an_r an_a = ROk an_out.
+Proof. exact an_example. Qed.
